@@ -5,8 +5,9 @@
  * the extracted Coq model.
  *
  * Case lines:
- *   P <mode> <inf> <w0> <w1> ...   words in hex, least significant first;
- *                                  mode a = every buffer length 0..needed+1, s = a sample
+ *   P <mode>[<fmt>] <inf> <w0> <w1> ...   words in hex, least significant first;
+ *                                  mode a = every buffer length 0..needed+1, s = a sample;
+ *                                  fmt h|l|t restricts the case to one format
  *   S <h|l|t> <hexbytes>           parse that string (NUL appended here)
  *   T <base> <hexbytes>            strtoul / strtol of libc (validation of Base/Strto.v)
  * Output lines (see the emitters below); the spec flags computed here on the C
@@ -96,10 +97,12 @@ static size_t unhex(const char *h, unsigned char *out)
   return n;
 }
 
-static void do_print(char mode, hwloc_bitmap_t set)
+static void do_print(char mode, char only, hwloc_bitmap_t set)
 {
   int f;
   for (f = 0; f < 3; f++) {
+    if (only && fmtc[f] != only)
+      continue;
     char *text = NULL, *text2;
     int needed = snp[f](NULL, 0, set);
     int ares = asp[f](&text, set);
@@ -214,9 +217,10 @@ int main(void)
       unsigned long w[512];
       unsigned nw = 0;
       int inf = 0, off = 0, adv;
-      char mode = 'a';
+      char mode = 'a', ms[8] = "";
       hwloc_bitmap_t set;
-      if (sscanf(line + 1, " %c %d%n", &mode, &inf, &off) < 2) continue;
+      if (sscanf(line + 1, " %7s %d%n", ms, &inf, &off) < 2) continue;
+      mode = ms[0];
       off += 1;
       while (nw < 512 && sscanf(line + off, " %lx%n", &w[nw], &adv) == 1) { off += adv; nw++; }
       if (!nw) { w[0] = 0; nw = 1; }
@@ -226,7 +230,7 @@ int main(void)
       printf("P ");
       print_canon(set);
       printf("\n");
-      do_print(mode, set);
+      do_print(mode, ms[1], set);
       hwloc_bitmap_free(set);
     } else if (line[0] == 'S') {
       size_t n = unhex(line + 4, bytes);
